@@ -80,6 +80,11 @@ var c03Sigs = map[string][]string{
 
 // c03Tables: the reviewed decision tables of the qualifier functions (R2/R4), compared as boolean functions.
 func c03Tables(w *World, r *Report) {
+	for _, n := range []string{"isHeadersQualified", "isStatusCodeQualified", "isMethodQualified", "isQueryParamsQualified"} {
+		if g := w.Fn(pkgFilter, "FilterNode."+n); g != nil {
+			decisionCallees["(*filter.FilterNode)."+n] = g
+		}
+	}
 	for _, n := range []string{"isFlowValid", "validate", "validateExpr", "isHeadersQualified", "isStatusCodeQualified", "isMethodQualified", "isQueryParamsQualified", "isHeaderValueValid"} {
 		f := w.Fn(pkgFilter, "FilterNode."+n)
 		if f == nil {
